@@ -2,7 +2,9 @@
    Property theorems only; proofs in proofs/Graph*.v (see design.d/C09.md). *)
 From Coq Require Import List NArith Bool Relations.
 From SV Require Import lib.Bytes lib.Closure model.Graph model.GraphDump model.GraphInv model.GraphTree model.GraphTreeInv
-  gen.GenGraph proofs.GraphNodes proofs.GraphProofs proofs.GraphTables proofs.GraphTrans proofs.GraphTreeSim proofs.GraphTreeOps proofs.GraphStepTrans proofs.GraphFileTrans.
+  model.GraphCheck model.GraphExt gen.GenGraph gen.GenWriters
+  proofs.GraphNodes proofs.GraphProofs proofs.GraphTables proofs.GraphTrans proofs.GraphTreeSim proofs.GraphTreeOps proofs.GraphStepTrans proofs.GraphFileTrans
+  proofs.GraphExtP proofs.GraphCheckP proofs.GraphWriters.
 Import ListNotations.
 Open Scope N_scope.
 
@@ -493,3 +495,85 @@ Theorem C09_model_tables_match_source :
                      end)) /\
   (forall n, In n gen_declarable_states -> exists f, n = fstate_code f).
 Proof. exact model_tables_match_source. Qed.
+
+
+(* ------------------------------------------------------------------------------------------ *)
+(* 6. Every transaction of the code that writes the stored workflow (writer inventory)         *)
+(* ------------------------------------------------------------------------------------------ *)
+
+(* The alphabet op_x (model/GraphExt.v) = the 15 operations with trees + the startup consistency
+   check with its repair + the transactions that translator/gen_writers.py finds in the source and
+   that the 15 operations do not describe: the "inputs overtaken" branch of try_skip_job, the nglob
+   invalidation (process_nglob_changes / rescan_nglobs), one transaction marking several steps
+   pending (second transaction of reset_interrupted_steps, rescan_env_vars, start_build_phase),
+   finalize.revert_optional_steps (for EVERY selection of steps), the first transaction of
+   reset_interrupted_steps, Workflow.initialize_boot on an existing database, and OpFrame.
+   inv_b is preserved by every one of them from ANY state (within the hold protocol), the core
+   invariant unconditionally, and both hold in every reachable state / every prefix. *)
+Theorem C09_x_inv_preserved :
+  forall s o, inv_b s = true -> protocol_hold_x_b s o = true -> inv_b (apply_op_x s o) = true.
+Proof. exact inv_x_preserved. Qed.
+
+Theorem C09_x_core_inv_preserved :
+  forall s o, inv_core_b s = true -> inv_core_b (apply_op_x s o) = true.
+Proof. exact inv_core_x_preserved. Qed.
+
+Theorem C09_x_reachable_inv_core :
+  forall cap ops, inv_core_b (run_ops_x ops (init_st cap)) = true.
+Proof. exact reachable_inv_core_x. Qed.
+
+Theorem C09_x_every_prefix :
+  forall cap ops, protocol_run_x_b (init_st cap) ops = true ->
+                  all_prefixes_ok_x inv_b (init_st cap) ops = true.
+Proof. exact reachable_inv_x_prefixes. Qed.
+
+(* startup.reset_interrupted_steps commits twice: the operation OpResetInterrupted of the base
+   alphabet is the composition of OpResetInterruptedRaw and the marking of the attached FAILED steps *)
+Theorem C09_reset_interrupted_is_two_transactions :
+  forall s, reset_interrupted s =
+    bind (reset_interrupted_raw s)
+         (fun s2 => foldM (fun s r => match sstate_of (sl r) s with
+                                      | Some SFailed => if is_detached (KStep, sl r) s then Ok s else mark_step_pending (sl r) s
+                                      | _ => Ok s end) (steps s2) s2).
+Proof. exact reset_interrupted_split. Qed.
+
+(* Everything the code's own consistency check verifies is implied by the invariant: the model of
+   Trellis._check_consistency (per-row creator/detached agreement, CHECK_DETACHED_REACHABILITY,
+   validate_row of every node) accepts every state satisfying inv_b; with I4 the strict
+   Workflow._check_consistency finds nothing, and the startup check is the identity. *)
+Theorem C09_code_consistency_check_implied :
+  forall s, inv_b s = true -> inv_succeeded_b s = true ->
+            code_check_accepts_b s = true /\ check_consistency s = Ok s.
+Proof. intros s Hi Hs. split; [exact (code_check_accepts_inv s Hi Hs) | exact (check_consistency_identity s Hi Hs)]. Qed.
+
+Theorem C09_trellis_check_implied : forall s, inv_b s = true -> trellis_consistent_b s = true.
+Proof. exact trellis_check_accepts_inv. Qed.
+
+(* Frame argument for all the other writers: every write statement of stepup/core (gen_writers,
+   regenerated from the source on every run) that is not described by the model assigns no column
+   that the canonical dump reads; every listed class is consistent with the columns. *)
+Theorem C09_unmodelled_writers_frame :
+  forall t cols, In (t, cols, 0) gen_writers -> touches_dump t cols = false.
+Proof. exact unmodelled_writers_frame. Qed.
+
+Theorem C09_writers_classified :
+  forallb (fun w => class_ok w && frame_ok w && model_ok w && temp_ok w) gen_writers = true.
+Proof. exact gen_writers_classified. Qed.
+
+(* non-vacuity: revert_optional_steps on a SUCCEEDED optional step with a BUILT output *)
+Definition revert_witness : list op_x :=
+  map (fun o => OpC (OpT (OpBase o)))
+  [ OpDeclareStatic root_key [plan_py];
+    OpUpdateHashes CConfirmed [(plan_py, Some 1)];
+    OpDefineStep root_key boot_label [plan_py] [] [] [] NPlan;
+    OpDispatch boot_label; OpResetForRerun boot_label;
+    OpDefineStep (KStep, boot_label) [65] [] [] [[102]] [] NOptional;
+    OpExecEnd boot_label [] CSucceeded [] true false;
+    OpDispatch [65]; OpResetForRerun [65];
+    OpExecEnd [65] [] CSucceeded [([102], Some 2)] true false ].
+Example C09_revert_optional_nonvacuous :
+  let s := run_ops_x revert_witness (init_st 3) in
+  let s' := apply_op_x s (OpRevertOptional [[65]]) in
+  sstate_of [65] s = Some SSucceeded /\ fstate_of [102] s = Some FBuilt /\
+  sstate_of [65] s' = Some SPending /\ fstate_of [102] s' = Some FPlanned /\ inv_b s' = true.
+Proof. vm_compute. repeat split; reflexivity. Qed.
